@@ -10,7 +10,11 @@ Tie:      `trace`  — get_async under the *controlled executor* (completion ord
           `api`    — dask.get / dask.threaded.get / get_async+ThreadPoolExecutor / dask.multiprocessing.get
                      on random DAGs (tasks, literals, aliases, nested list arguments, legacy tuples and
                      Task objects) vs a plain recursive evaluator and vs the Lean `denote`;
-          `exh`    — (thorough) every completion order of every small DAG.
+          `exh`    — (thorough) every completion order of every small DAG;
+          `warm`   — get_async(cache=cache0) on random DAGs with caches by class (empty, leaves, interior, requested,
+                     data, mixture, unsound): the run with the cache (every callback state diffed against getAsyncC)
+                     vs the run without it vs the driver op warm_plan (sound / executed keys / visited keys);
+          `exhwarm`— every completion order of a sample of small DAGs with every sound cache over <= 2 keys.
 """
 from __future__ import annotations
 
@@ -23,7 +27,7 @@ from props import _sched_util as U
 PROP = "C01"
 READY = True
 DRIVER = "dm_sched"
-LEAN_MODULES = ["DaskModel.Props.C01"]
+LEAN_MODULES = ["DaskModel.Props.C01", "DaskModel.Props.C01xCache"]
 CASE_TIMEOUT_S = 30
 LEVEL_TEXT = (
     "Lean 4 theorems over an executable transliteration of dask.local.get_async (symbolic values, arbitrary "
@@ -39,13 +43,25 @@ LEVEL_TEXT = (
     "seen_iff_reachable), nested_get keeps the request's nesting (nestedGet_shape), the FIFO adversary = the "
     "synchronous scheduler is never rejected and ends within #keys iterations (sync_scheduler_terminates), so "
     "get_async_correct states the property with no hypothesis beyond: graph acyclic and closed, dependencies listed "
-    "once, requested keys present (GraphOK/Hyp: both shown satisfiable by examples). PROVED FOR ALL INPUTS: the "
-    "above, for the empty start cache. VALIDATED ONLY (differential tie, no theorem): the real `state` dict vs the "
-    "model at every callback of get_async under a controlled executor with the same adversary choices; "
+    "once, requested keys present (GraphOK/Hyp: both shown satisfiable by examples). A CALLER-SUPPLIED cache= "
+    "(Props/C01xCache over the model startStateC/getAsyncC): for EVERY cache, sound or not, every acyclic graph closed modulo "
+    "the cache and every completion order the call never raises an internal error, terminates and returns what the WARM "
+    "graph denotes - the graph in which every cached key is a constant (get_async_with_cache_denotes_warm) - and executes, "
+    "each at most once, only tasks that are not cached and are reachable from the request without passing through a cached "
+    "key, on success exactly those (cached_tasks_not_run); if every cached key holds the value the graph denotes for it "
+    "(CacheSound) the warm graph denotes what the graph denotes (den_warm_eq), so the result is the recursive evaluation and "
+    "equals, as a packed result, that of the run without the cache under any two completion orders "
+    "(get_async_with_cache_correct, cached_run_eq_uncached_run, cached_run_executes_subset); without CacheSound this fails "
+    "(witness unsound_cache_refuted: cache={1: 5} on the diamond returns 512 instead of 614). Proof: a loop invariant of the "
+    "traversal started from the cache (Lemmas/SchedWarm1-3: startStateC_ok), a frame lemma (cache entries the traversal did "
+    "not visit never matter: mainLoop_frame) and the fact that the loop never looks at the graph (mainLoop_warm). PROVED FOR "
+    "ALL INPUTS: the above. VALIDATED ONLY (differential tie, no theorem): the real `state` dict vs the "
+    "model at every callback of get_async under a controlled executor with the same adversary choices (also with cache=: "
+    "sections trace, warm, exhwarm - caches holding nothing, leaves, interior tasks, requested keys, data keys, mixtures, "
+    "wrong values; executed keys vs the model run and vs the theorem's prediction warm_plan); "
     "start_state_from_dask, finish_task, release_data, nested_get at function level; keys that are false in a boolean "
-    "context (0, '', (), b''); a caller-supplied cache= (model startStateC/getAsyncC, which is definitionally the proved "
-    "model for the empty cache: startStateC_nil, getAsyncC_nil); the threaded, ThreadPoolExecutor and multiprocessing "
-    "schedulers at API level.")
+    "context (0, '', (), b''); the keys=None default of start_state_from_dask with a cache; the threaded, ThreadPoolExecutor "
+    "and multiprocessing schedulers at API level.")
 LEVEL_NOTE = (
     "OS thread / process timing is NOT modelled: the model quantifies over every order in which outstanding "
     "batches may complete (adversary), the real executors (ThreadPoolExecutor, ProcessPoolExecutor, Queue, "
@@ -57,7 +73,7 @@ LEVEL_NOTE = (
     "repaired in /repo (d3f7a74).")
 TECHNIQUE = "Lean 4 invariant proof over an adversarial state machine + differential state-trace correspondence under a controlled executor"
 ASSUMPTIONS = ["tasks are pure functions of their dependency values (symbolic `apply`)",
-               "the theorems are for the empty start cache; a caller-supplied `cache=` mapping is modelled and diffed, not proved",
+               "a caller-supplied `cache=` mapping is a plain dict whose entries only get_async touches during the call; for a cached key that is not a key of the graph 'the value the graph denotes' is the free parameter P.dataVal k (instantiate it with the cached value)",
                "graphs are closed (every dependency is a key of the graph) - dask raises 'Missing dependency' otherwise (malformed stream)"]
 TRUSTED = ["concurrent.futures / threading / multiprocessing deliver completions in SOME order (adversarial order is modelled, timing is not)"]
 
@@ -359,6 +375,151 @@ def case_exh(ctx, inp):
         ctx.branch("exh:several-orders")
 
 
+# ------------------------------------------------------------------------------------------------
+# caller-supplied (warm) caches: get_async(..., cache=cache0)
+# ------------------------------------------------------------------------------------------------
+def _pretask_ids(events):
+    """ids get_async hands to a worker (pretask callback), in order: Task AND Alias nodes (both are run as tasks)"""
+    return [e[1] for e, _ in events if str(e[0]) == "pretask"]
+
+
+def _warm_plan(ctx, dag, flat, cache0):
+    """[sound, exec, reach] predicted by the warm-cache theorems (driver op warm_plan)"""
+    return ctx.lean(Sym("warm_plan"), U.enc_nodes(dag), list(flat), sorted([int(k), v] for k, v in (cache0 or {}).items()))
+
+
+def _cold_input(inp):
+    return {k: v for k, v in inp.items() if k not in ("cache0", "empty_cache_arg")}
+
+
+def _warm_oracles(ctx, inp, out, cold_real, plan, sound_py):
+    """the clauses of the warm-cache theorem evaluated on ONE controlled run `out` of get_async(cache=cache0), given one run
+    `cold_real` of the same graph/request without the cache and the prediction `plan` of the Lean side.
+    (The value oracle - result == evaluation that takes the cached values for granted, no exception, packing - is
+    _oracle_values.)  Returns False when the run raised."""
+    real, dag = out["real"], inp["dag"]
+    if real["error"] is not None or cold_real["error"] is not None:
+        return False
+    cached = {int(k) for k in (inp.get("cache0") or {})}
+    _, exec_m, _ = plan
+    exec_m = list(exec_m)
+    pre = _pretask_ids(real["events"])
+    cold_pre = _pretask_ids(cold_real["events"])
+    ran = sorted(k for k, *_ in real["exec_log"])
+    tag = "sound" if sound_py else "unsound"
+    if sorted(pre) != exec_m:
+        ctx.fail(f"get_async(cache=<{tag}>): the keys handed to workers are not exactly (each once) the uncached tasks "
+                 "reachable from the request without passing through a cached key", observed=sorted(pre), expected=exec_m)
+    want_ran = [i for i in exec_m if dag["nodes"][i][0] == "t"]
+    if ran != want_ran:
+        ctx.fail(f"get_async(cache=<{tag}>): the task functions that were called are not exactly (each once) the uncached "
+                 "tasks reachable from the request without passing through a cached key", observed=ran, expected=want_ran)
+    hit = sorted((set(pre) | set(ran)) & cached)
+    if hit:
+        ctx.fail(f"get_async(cache=<{tag}>): a key whose value the caller supplied was executed", observed=hit, expected=[])
+    extra = sorted(set(pre) - set(cold_pre))
+    if extra:
+        ctx.fail(f"get_async(cache=<{tag}>): the run with the cache executes tasks the run without it does not",
+                 observed=extra, expected=[])
+    if sound_py:
+        got, cold_got = real["result"], cold_real["result"]
+        if not U.same_nesting(inp["req"], got) or U._tuple_to_list(got) != U._tuple_to_list(cold_got):
+            ctx.fail("a SOUND caller-supplied cache changes the result of get_async", observed=U._tuple_to_list(got),
+                     expected=U._tuple_to_list(cold_got))
+    m = out.get("model")
+    if m and str(m["outcome"][0]) == "done":
+        ctx.eq("keys the model run (getAsyncC) hands to workers vs warm_plan exec", exec_m,
+               sorted(_pretask_ids(m["log"])))
+    return True
+
+
+def case_warm(ctx, inp):
+    """get_async(cache=cache0) under the controlled executor (every callback state diffed against getAsyncC by run_trace)
+    + the same graph/request/adversary policy without the cache + the prediction of the warm-cache theorems"""
+    dag, req = inp["dag"], inp["req"]
+    cache0 = {int(k): v for k, v in (inp.get("cache0") or {}).items()}
+    ctx.branch("warm:" + str(inp.get("cls", "unclassified")))
+    out = U.run_trace(ctx, inp)
+    cold_inp = _cold_input(inp)
+    cold = U.run_trace(ctx, cold_inp, diff=False)
+    flat = out["flat_ids"]
+    ev = U.reference_eval(dag)
+    sound_py = all(ev(k) == v for k, v in cache0.items())
+    plan = _warm_plan(ctx, dag, flat, cache0)
+    ctx.eq("warm_plan sound (Lean denote) vs the cached values == python recursive evaluation", plan[0], sound_py)
+    # value oracle (both runs): no exception, packing, result == evaluation taking the cached values for granted
+    _oracle_values(ctx, out, inp)
+    _oracle_values(ctx, cold, cold_inp)
+    real, cold_real = out["real"], cold["real"]
+    # keys start_state_from_dask visits == reach of the warm graph
+    st = next((s for e, s in real["events"] if str(e[0]) == "start_state"), None)
+    if st is not None:
+        ctx.eq("keys visited by start_state_from_dask (state['dependencies']) vs warm_plan reach", list(plan[2]),
+               [k for k, _ in st[0]])
+    if not _warm_oracles(ctx, inp, out, cold_real, plan, sound_py):
+        return
+    # the run without a cache executes what the theorem predicts for the empty cache
+    plan0 = _warm_plan(ctx, dag, flat, {})
+    cold_pre = _pretask_ids(cold_real["events"])
+    if sorted(cold_pre) != list(plan0[1]):
+        ctx.fail("get_async without cache: the keys handed to workers are not exactly (each once) the tasks reachable from "
+                 "the request", observed=sorted(cold_pre), expected=list(plan0[1]))
+    pre = _pretask_ids(real["events"])
+    if not sound_py:
+        if U._tuple_to_list(real["result"]) != U._tuple_to_list(cold_real["result"]):
+            ctx.branch("warm:unsound-changes-result")
+        if any(v == 0 for v in cache0.values()):
+            ctx.branch("warm:unsound-falsy-value")
+    if "empty_cache_arg" in inp and not cache0:
+        ctx.branch("warm:cache={}-passed")
+    if len(pre) < len(cold_pre):
+        ctx.branch("warm:tasks-skipped")
+        if not pre:
+            ctx.branch("warm:nothing-executed")
+    if cache0 and any(k not in plan[2] for k in cache0):
+        ctx.branch("warm:cached-key-not-reached")
+    if any(dag["nodes"][k][0] == "a" for k in cache0):
+        ctx.branch("warm:alias-key-cached")
+    if sound_py and any(v == 0 for v in cache0.values()):
+        ctx.branch("warm:sound-falsy-value")
+    if out["ties"]:
+        ctx.branch("warm:priority-ties(state diff skipped)")
+    if any(c > 0 for c in real["choices"]):
+        ctx.branch("warm:non-fifo-completion")
+
+
+def case_exhwarm(ctx, inp):
+    """EVERY completion order of one small dag with one sound cache: each order diffed against getAsyncC (run_trace), result
+    == the result without the cache, executed keys == warm_plan exec"""
+    dag = inp["dag"]
+    cache0 = {int(k): v for k, v in (inp.get("cache0") or {}).items()}
+    ev = U.reference_eval(dag)
+    sound_py = all(ev(k) == v for k, v in cache0.items())
+    cold_inp = dict(_cold_input(inp), choices=[])
+    cold = U.run_trace(ctx, cold_inp, diff=False)
+    _oracle_values(ctx, cold, cold_inp)
+    flat = cold["flat_ids"]
+    plan = _warm_plan(ctx, dag, flat, cache0)
+    ctx.eq("warm_plan sound (Lean denote) vs the cached values == python recursive evaluation", plan[0], sound_py)
+    skipped = [False]
+
+    def run_with(prefix, branching):
+        sub = dict(inp, choices=prefix)
+        out = U.run_trace(ctx, sub)
+        branching.extend(out["real"]["branching"])
+        _oracle_values(ctx, out, sub)
+        if _warm_oracles(ctx, sub, out, cold["real"], plan, sound_py):
+            if len(_pretask_ids(out["real"]["events"])) < len(_pretask_ids(cold["real"]["events"])):
+                skipped[0] = True
+    n = U.enumerate_schedules(run_with, limit=inp.get("limit", 200))
+    ctx.note("warm_schedules_enumerated", n)
+    ctx.branch("exhwarm:cache-size-%d" % len(cache0))
+    if n > 1:
+        ctx.branch("exhwarm:several-orders")
+    if skipped[0]:
+        ctx.branch("exhwarm:tasks-skipped")
+
+
 def _timed(name, fn):
     import time
 
@@ -372,7 +533,7 @@ def _timed(name, fn):
 
 
 CASES = {k: _timed(k, f) for k, f in {"trace": case_trace, "start": case_start, "api": case_api, "exh": case_exh,
-                                      "nested": case_nested}.items()}
+                                      "nested": case_nested, "warm": case_warm, "exhwarm": case_exhwarm}.items()}
 
 
 def _gen_cache0(rng, dag, sound=False):
@@ -390,6 +551,74 @@ def _gen_cache0(rng, dag, sound=False):
         if nd[0] == "x" and rng.random() < 0.7:
             out[str(i)] = rng.choice([0, 4, 99])
     return out
+
+
+WARM_CLASSES = ["empty", "leaves", "interior", "requested", "data", "mixture", "unsound"]
+_WARM_WEIGHTED = ["empty"] + ["leaves"] * 3 + ["interior"] * 4 + ["requested"] * 3 + ["data"] * 2 + ["mixture"] * 4 + ["unsound"] * 4
+
+
+def _gen_warm_cache(rng, dag, flat, want):
+    """a caller-supplied cache of class `want` for the well-formed `dag` and the requested ids `flat`; returns (class, cache0) -
+    the class actually produced (a class whose pool is empty for this dag/request falls back to `mixture`).
+      empty      no key;
+      leaves     dependency-free tasks (data keys when the dag has no such task);
+      interior   tasks/aliases that have dependencies AND dependents;
+      requested  some or all of the requested keys;
+      data       DataNode keys;
+      mixture    keys of several of the classes above / any keys;
+      unsound    a sound cache of one of the classes above (possibly empty) + ONE task key holding a wrong int.
+    Sound values are what the keys denote (U.reference_eval); keys in the part of the graph the request needs are preferred
+    (a cached key nobody reaches is legal but changes nothing)."""
+    nodes = dag["nodes"]
+    n = len(nodes)
+    ev = U.reference_eval(dag)
+    ok = [i for i in range(n) if isinstance(ev(i), int) and not isinstance(ev(i), bool)]
+    used = {d for i in range(n) for d in U.node_deps(dag, i)}
+    needed = U.needed_ids(dag, flat)
+    freetasks = [i for i in ok if nodes[i][0] == "t" and not nodes[i][1]]
+    pools = {"leaves": freetasks or [i for i in ok if nodes[i][0] == "d"],
+             "interior": [i for i in ok if nodes[i][0] in ("t", "a") and U.node_deps(dag, i) and i in used],
+             "requested": sorted(set(flat) & set(ok)),
+             "data": [i for i in ok if nodes[i][0] == "d"]}
+
+    def pick(pool, kmax=3):
+        near = [i for i in pool if i in needed]
+        if near and rng.random() < 0.8:
+            pool = near
+        return rng.sample(pool, rng.randint(1, min(kmax, len(pool))))
+
+    def sound(cls):
+        if cls == "empty":
+            return cls, []
+        if cls == "requested" and pools["requested"] and rng.random() < 0.3:
+            return cls, list(pools["requested"])                      # ALL requested keys: nothing is left to run
+        if cls == "requested" and len(pools["requested"]) >= 2:
+            return cls, pick(pools[cls], len(pools[cls]) - 1)         # SOME of them
+        if cls in pools and pools[cls]:
+            return cls, pick(pools[cls])
+        ids = set()
+        for c in rng.sample(sorted(pools), rng.randint(2, 3)):
+            if c == "requested":
+                if len(pools[c]) >= 2:
+                    ids.update(pick(pools[c], 1))
+            elif pools[c]:
+                ids.update(pick(pools[c], 2))
+        if not ids or rng.random() < 0.3:
+            ids.update(pick(ok, 4))
+        return "mixture", sorted(ids)
+
+    if want != "unsound":
+        cls, ids = sound(want)
+        return cls, {str(i): ev(i) for i in ids}
+    _, ids = sound(rng.choice(["empty", "empty", "leaves", "interior", "requested", "mixture"]))
+    cache0 = {str(i): ev(i) for i in ids}
+    tasks = [i for i in ok if nodes[i][0] == "t"] or ok
+    near = [i for i in tasks if i in needed]
+    inner = [i for i in near if i not in flat]        # a wrong value somebody consumes (not merely handed back)
+    bad = rng.choice(inner if inner and rng.random() < 0.6 else near if near and rng.random() < 0.85 else tasks)
+    v = ev(bad)
+    cache0[str(bad)] = rng.choice([w for w in (0, 0, v + 1, v - 1, 7, 12345, -1) if w != v])
+    return "unsound", cache0
 
 
 def _small_dags(n):
@@ -465,6 +694,43 @@ def generate(ctx):
             for req in ([n - 1], list(range(n)), rng.choice([[], [[], []], [[], [0]], n - 1, n - 1])):
                 yield "exh", {"dag": dag, "req": req, "nw": rng.choice([1, 2, 3]), "cs": rng.choice([1, 2, -1]),
                               "fails": {}, "seed": 0, "bias": None, "limit": 300}
+    # ---- appended last (the rng streams of the sections above must not shift) ----
+    # warm caches by class on random well-formed dags: with the cache (diffed against getAsyncC) vs without it vs warm_plan
+    for j in range(ctx.n(250, 2500)):
+        inp = U.gen_trace_input(rng, max_n=rng.choice([5, 8, 12, 16]), fail_p=0.0, missing_p=0.0)
+        if rng.random() < 0.75 and not any(inp["dag"]["nodes"][i][0] != "d" for i in U.flatten_req(inp["req"])):
+            # an empty / data-only request runs nothing with or without a cache: mostly ask for every sink instead
+            used = {d for i in range(len(inp["dag"]["nodes"])) for d in U.node_deps(inp["dag"], i)}
+            inp["req"] = [i for i in range(len(inp["dag"]["nodes"])) if i not in used][:8]
+        want = WARM_CLASSES[j] if j < len(WARM_CLASSES) else rng.choice(_WARM_WEIGHTED)
+        cls, cache0 = _gen_warm_cache(rng, inp["dag"], list(U.flatten_req(inp["req"])), want)
+        inp["cls"], inp["cache0"] = cls, cache0
+        if not cache0:
+            inp["empty_cache_arg"] = True
+        yield "warm", inp
+    # every completion order of a sample of the small dags with EVERY sound cache over <= 2 keys
+    from itertools import combinations
+
+    def wide(nodes):
+        """>= 2 tasks are ready at the start (all their dependencies are data) - with num_workers >= 2 and chunksize 1 several
+        batches are outstanding at once, so there is more than one completion order - and some task has a dependent"""
+        first = [i for i, nd in enumerate(nodes) if nd[0] == "t" and all(nodes[d][0] == "d" for d in nd[1])]
+        return len(first) >= 2 and any(nd[0] != "d" and any(nodes[d][0] != "d" for d in ([nd[1]] if nd[0] == "a" else nd[1]))
+                                       for nd in nodes)
+    for n, cnt in ((3, ctx.n(2, 20)), (4, ctx.n(3, 30)), (5, ctx.n(1, 10))):
+        pool = [nodes for nodes in _small_dags(n) if wide(nodes)]
+        for nodes in rng.sample(pool, min(cnt, len(pool))):
+            dag = {"nodes": nodes, "keys": rng.choice(["str", "tuple", "int", "falsy"]), "style": rng.choice(["legacy", "spec", "mixed"])}
+            ev = U.reference_eval(dag)
+            used = {d for i in range(n) for d in U.node_deps(dag, i)}
+            sinks = [i for i in range(n) if i not in used]
+            req = rng.choice([list(range(n)), sinks, sinks, [sinks, []]])
+            nw, cs = rng.choice([2, 2, 3]), rng.choice([1, 1, 1, 2, -1])
+            for size in (1, 2):
+                for sub in combinations(range(n), size):
+                    if all(isinstance(ev(i), int) for i in sub):
+                        yield "exhwarm", {"dag": dag, "req": req, "nw": nw, "cs": cs, "fails": {}, "seed": 0, "bias": None,
+                                          "limit": 200, "cache0": {str(i): ev(i) for i in sub}}
 
 
 def search(ctx):
